@@ -42,7 +42,7 @@ func c01Letters() []c01Letter {
 	st(rec.Call{M: rec.MSetNReg, Incr: true, A: [6]float32{-3}})
 	st(rec.Call{M: rec.MSetNReg, Incr: true, A: [6]float32{0.9}})
 	st(rec.Call{M: rec.MSetLOD, A: [6]float32{8, 1e10}})
-	ls = append(ls, c01Letter{read: 'c'}, c01Letter{read: 'n'})
+	ls = append(ls, c01Letter{read: 'c'}, c01Letter{read: 'n'}, c01Letter{read: 'H'}, c01Letter{read: 'h'})
 	st(rec.Call{M: rec.MStartPath, Adj: 0, A: [6]float32{1, 2}})
 	st(rec.Call{M: rec.MStartPath, Adj: 3, A: [6]float32{-3.5, 4.25}})
 	st(rec.Call{M: rec.MStartPath, Adj: 6, A: [6]float32{100.5, -200}})
@@ -52,6 +52,9 @@ func c01Letters() []c01Letter {
 		for i := 0; i < n; i++ {
 			k++
 			a[i] = k + k/64
+			if int(k)%5 == 0 {
+				a[i] += 0.003 // not a multiple of 1/64: the resolution in force shows
+			}
 			if int(k)%3 == 0 {
 				a[i] = -a[i]
 			}
@@ -70,6 +73,13 @@ func c01Letters() []c01Letter {
 }
 
 var c01L = c01Letters()
+
+// markers carried in the Adj field of a read-back pseudo call: assign the Encoder's
+// HighResolutionCoordinates flag (it is latched when the next path starts)
+const (
+	c01FlagOn  = 0xfe
+	c01FlagOff = 0xff
+)
 
 type c01Meta struct {
 	vb  ivg.ViewBox
@@ -186,9 +196,14 @@ func init() {
 			for _, j := range cs.Calls {
 				c := fromJ(j)
 				if j.Read != 0 {
-					c.M = rec.MCSel
-					if j.Read == 'n' {
+					c = rec.Call{M: rec.MCSel}
+					switch j.Read {
+					case 'n':
 						c.M = rec.MNSel
+					case 'H':
+						c.Adj = c01FlagOn
+					case 'h':
+						c.Adj = c01FlagOff
 					}
 				}
 				calls = append(calls, c)
@@ -216,7 +231,11 @@ func (st *c01State) mkCase(calls []rec.Call, hires bool, meta int, desc string) 
 	cs := c01Case{Kind: "forward", Hires: hires, Meta: meta, Desc: desc}
 	for i := range calls {
 		j := toJ(&calls[i])
-		if calls[i].M == rec.MCSel {
+		if calls[i].M == rec.MCSel && calls[i].Adj == c01FlagOn {
+			j.Read = 'H'
+		} else if calls[i].M == rec.MCSel && calls[i].Adj == c01FlagOff {
+			j.Read = 'h'
+		} else if calls[i].M == rec.MCSel {
 			j.Read = 'c'
 		} else if calls[i].M == rec.MNSel {
 			j.Read = 'n'
@@ -237,7 +256,11 @@ func (st *c01State) forward(calls []rec.Call, hires bool, meta int, desc string)
 	// Three kinds of object, alternating from case to case: the Encoder of the previous case,
 	// abandoned inside a path with a run of operations pending (as after a Decode into it that
 	// failed mid-path) and then Reset; a fresh one; a zero-value one that is never Reset.
-	switch variant := (len(calls) + meta) % 3; {
+	var mid rec.Call
+	if len(calls) > 0 {
+		mid = calls[len(calls)/2]
+	}
+	switch variant := (len(calls) + meta + int(mid.M) + int(f32b(mid.A[0])>>3) + int(f32b(mid.A[1])>>5)) % 3; {
 	case variant == 1 && meta == 0:
 		// default metadata: a zero-value Encoder that is never Reset and whose resolution flag
 		// is set before its first call
@@ -259,10 +282,22 @@ func (st *c01State) forward(calls []rec.Call, hires bool, meta int, desc string)
 	want := make([]rec.Call, 0, len(calls)+1)
 	pal := m.pal
 	want = append(want, rec.Call{M: rec.MReset, VB: m.vb, Pal: &pal})
+	// the resolution of a path is the flag's value when the path starts
+	flag, latched := hires, hires
+	hiresOf := make([]bool, 1, len(calls)+1)
 	for i := range calls {
+		if calls[i].M == rec.MCSel && calls[i].Adj >= c01FlagOn {
+			flag = calls[i].Adj == c01FlagOn
+			e.HighResolutionCoordinates = flag
+			continue
+		}
 		calls[i].Apply(e)
+		if calls[i].M == rec.MStartPath {
+			latched = flag
+		}
 		if calls[i].M != rec.MCSel && calls[i].M != rec.MNSel {
 			want = append(want, calls[i])
+			hiresOf = append(hiresOf, latched)
 		}
 	}
 	w.Transition(int64(len(calls)))
@@ -276,7 +311,18 @@ func (st *c01State) forward(calls []rec.Call, hires bool, meta int, desc string)
 		w.Fail("forward:decode-error", fmt.Sprintf("%s: history [%s] encodes to %x which Decode rejects: %v", desc, rec.CallsString(calls), b, derr), st.mkCase(calls, hires, meta, desc))
 		return
 	}
-	if i, why := cmpCalls(want, st.rd.Calls, hires); i >= 0 {
+	cmpAll := func() (int, string) {
+		for k := 0; k < len(want) && k < len(st.rd.Calls); k++ {
+			if why := cmpCall(&want[k], &st.rd.Calls[k], hiresOf[k]); why != "" {
+				return k, why
+			}
+		}
+		if len(want) != len(st.rd.Calls) {
+			return min(len(want), len(st.rd.Calls)), fmt.Sprintf("%d operations became %d", len(want), len(st.rd.Calls))
+		}
+		return -1, ""
+	}
+	if i, why := cmpAll(); i >= 0 {
 		key := "forward:" + methodAt(want, i) + ":" + strings.SplitN(why, ":", 2)[0]
 		w.Fail(key, fmt.Sprintf("%s (hires=%v): call %d %s comes back as %s: %s (stream %s)", desc, hires, i, callAt(want, i), callAt(st.rd.Calls, i), why, hexShort(b)), st.mkCase(calls, hires, meta, desc))
 		return
@@ -309,15 +355,17 @@ func (st *c01State) structural(l0, l1 int) {
 		if L.read == 0 && L.drawing != drawing {
 			return
 		}
-		if L.read != 0 && drawing {
-			// read-backs are harmless in any mode; keep them to styling mode to bound the alphabet
-			return
-		}
+		// (read-backs and assignments of the resolution flag are legal in either mode)
 		c := L.call
-		if L.read == 'c' {
+		switch L.read {
+		case 'c':
 			c = rec.Call{M: rec.MCSel}
-		} else if L.read == 'n' {
+		case 'n':
 			c = rec.Call{M: rec.MNSel}
+		case 'H':
+			c = rec.Call{M: rec.MCSel, Adj: c01FlagOn}
+		case 'h':
+			c = rec.Call{M: rec.MCSel, Adj: c01FlagOff}
 		}
 		hist = append(hist, c)
 		nd := drawing
